@@ -25,7 +25,9 @@ RULE = ("Each run: victim role, target = k-th outgoing message of the adversary 
         "password/publickey/keyboard-interactive, channel open, pty/env/exec/shell/subsystem/x11 requests, data both "
         "ways, exit status, global requests, port forward, close) or the banner; one structural mutation drawn from "
         "{truncate at/inside a field, invalid UTF-8, huge/zero/negative integers, bad bool, type byte swap, junk tail, "
-        "random bytes}.")
+        "random bytes, packet framing: no payload / padding-length byte 255, length-1, length}; in 1/4 of the runs the "
+        "target is the first message of a drawn TYPE instead of the k-th message; in 1/8 an earlier message of the "
+        "adversary is replayed in front of the target instead of mutating it; user key Ed25519/RSA/ECDSA.")
 COMPONENTS = {"real": ["victim Transport/AuthHandler/Channel/kex classes unmodified", "adversary: real Transport with one outgoing message mutated"],
               "simulated": ["socket", "clock", "scheduling", "entropy"]}
 ASSUMPTIONS = ["allowed: SSHException (and subclasses), EOFError, OSError (socket errors, timeouts)"]
